@@ -3,7 +3,7 @@
 From Verif Require Import Base.Tactics Base.ZList Base.Val.
 From Verif Require Import Base.Str.
 From Verif Require Import Model.BufReaderModel Model.RangeModel Model.IsoTimeModel Model.TimingModel Model.SegModel.
-From Verif Require Import Base.Bits Model.CrcModel Model.EventsModel Model.Scte35Model Model.MpsModel Model.AuthModel Model.OptionsModel Model.BoxModel Model.FragModel Model.DrmModel Model.ErrModel Model.OptErrModel Model.XmlModel Model.StoreModel.
+From Verif Require Import Base.Bits Model.CrcModel Model.EventsModel Model.Scte35Model Model.MpsModel Model.AuthModel Model.OptionsModel Model.BoxModel Model.FragModel Model.DrmModel Model.ErrModel Model.OptErrModel Model.XmlModel Model.StoreModel Model.ValidatorModel.
 
 (* ---- C20 ---- request: (file off bs maxb (size?) mode ops) *)
 Definition c20_op (v : val) : op :=
@@ -380,7 +380,7 @@ Definition c17_op (v : val) : StoreModel.sop :=
   if c =? 0 then OAddStream a b else if c =? 1 then ODelStream a else if c =? 2 then OUpload a b d e
   else if c =? 3 then ODelFile a else if c =? 4 then OAddKey a b else if c =? 5 then ODelKey a
   else if c =? 6 then OLink a b else if c =? 7 then OAddMps a b else if c =? 8 then ODelMps a
-  else if c =? 9 then OAddPeriod a b d e else if c =? 10 then ODelPeriod a else OAddAset a b.
+  else if c =? 9 then OAddPeriod a b d e else if c =? 10 then ODelPeriod a else if c =? 12 then ORename a b else OAddAset a b.
 Definition c17_pairs (l : list (Z * Z)) : val := VL (map (fun x => VL [VI (fst x); VI (snd x)]) l).
 Definition c17_state (s : store) : val :=
   VL [c17_pairs (streams s);
@@ -398,8 +398,25 @@ Definition c17_run (v : val) : val :=
   if vint (vnth 0 v) =? 1 then VL (c17_trace StoreModel.sempty ops)
   else c17_state (fold_left (fun s o => StoreModel.sstep s (c17_op o)) ops StoreModel.sempty).
 
+(* ---- C18 ---- request: the 23 fields of segfacts in order (options as () / (v)); result: error codes *)
+Definition c18_code (e : vkind) : Z :=
+  match e with
+  | EStatus => 0 | EMoof => 1 | EMdat => 2 | ETrunOffset => 3 | ETrunEnd => 4 | ESencMissing => 5 | ESaioMissing => 6
+  | ESaioCount => 7 | ESaioOffset => 8 | ESencCount => 9 | ESencInClear => 10 | ESeq => 11 | EDecode => 12 | EDuration => 13
+  end.
+Definition c18_run (v : val) : val :=
+  let z n := vint (vnth n v) in
+  let b n := 0 <? vint (vnth n v) in
+  let f := {| g_status := z 0%nat; g_has_moof := b 1%nat; g_has_mdat := b 2%nat; g_first_sample := z 3%nat; g_payload_start := z 4%nat;
+              g_last_sample_end := z 5%nat; g_mdat_end := z 6%nat; g_encrypted := b 7%nat; g_has_senc := b 8%nat; g_has_saio := b 9%nat;
+              g_saio_entries := z 10%nat; g_saio_target := z 11%nat; g_senc_first := z 12%nat; g_trun_n := z 13%nat; g_senc_n := z 14%nat;
+              g_seq := z 15%nat; g_expected_seq := as_opt_int (vnth 16 v); g_decode := z 17%nat; g_expected_decode := as_opt_int (vnth 18 v);
+              g_tolerance := z 19%nat; g_duration := z 20%nat; g_expected_duration := as_opt_int (vnth 21 v); g_timescale := z 22%nat |} in
+  of_ints (map c18_code (seg_errors f)).
+
 Definition dispatch (comp : Z) (v : val) : val :=
   if comp =? 20 then c20_run v
+  else if comp =? 18 then c18_run v
   else if comp =? 17 then c17_run v
   else if comp =? 5 then c05_run v
   else if comp =? 16 then c16_run v
